@@ -76,3 +76,17 @@ CHECKS["C11"] = dict(
     assumptions=["the 4-bit transport sequence number is carried only when the numbered flag is set (encoder side)"],
     jobs=[dict(name="pure", pkg="./pure", go=GO, test="TestC11", shards=(2, 16), checks=(30000, 400000), timeout=(300, 3000))],
 )
+
+CHECKS["C15"] = dict(
+    rule=("every value of the C02 product (service shape x cEMI kind, plus the decode-only and unknown services) and each of its "
+          "sub-structures (HostInfo, DIBs, service family, Info, transport unit, cEMI message, unknown service) is packed into "
+          "Size()+16-byte buffers pre-filled with 0x00, 0xFF and a rapid-drawn pattern and into an exact-capacity slice; plus oversize "
+          "info (256..600), application data (256..600), names of 30..80 characters and non-Latin-1 names, decoded by the reference "
+          "decoder. Non-trivial = frame with nested cEMI / description block, or an oversize part; distinct by (encoding, fill)."),
+    level_text=("Sampled exploration with exact oracles: guard bytes untouched, encoding identical under three pre-fills and in an "
+                "exact-size buffer, header length = Size()+6 = len(AllocAndPack); oversize parts decode to the truncated original."),
+    level_note="Trusted: harness/common/ref.go reference decoder for the oversize clause. The datagram-length clause is decided on real sockets by the C16 socket job (one datagram per Send equal to AllocAndPack).",
+    technique="rapid property-based testing with guard-byte / multi-fill metamorphic oracle and reference decoder",
+    assumptions=["a name of 30 or more characters may be cut to 29 characters + NUL or to 30 characters (both are 'the field limit')"],
+    jobs=[dict(name="pure", pkg="./pure", go=GO, test="TestC15", shards=(2, 16), checks=(30000, 400000), timeout=(300, 3000))],
+)
